@@ -11,7 +11,7 @@ use tracing::{debug, instrument};
 
 #[instrument(skip_all, name = "trace_create_consumer_group", fields(iggy_user_id = session.get_user_id(), iggy_client_id = session.client_id, iggy_stream_id = command.stream_id.as_string(), iggy_topic_id = command.topic_id.as_string()))]
 pub async fn handle(
-    command: CreateConsumerGroup,
+    mut command: CreateConsumerGroup,
     sender: &mut SenderKind,
     session: &Session,
     system: &SharedSystem,
@@ -35,6 +35,7 @@ pub async fn handle(
                 )
             })?;
     let consumer_group = consumer_group.read().await;
+    command.group_id = Some(consumer_group.group_id);
     let response = mapper::map_consumer_group(&consumer_group).await;
     drop(consumer_group);
 
